@@ -121,4 +121,14 @@ def orPanicO {α : Type} (o : Option α) (k : α → Outcome) : Outcome :=
 @[rs_eval] theorem orPanicO_some {α} (a : α) (k : α → Outcome) : orPanicO (some a) k = k a := rfl
 @[rs_eval] theorem orPanicO_none {α} (k : α → Outcome) : orPanicO none k = .panic := rfl
 
+-- [shm] begin: the array comparison added to `binOp` (`Rs/Interp.lean`, block `[shm]`)
+rs_register_eqns intListEq
+-- [shm] end
+-- [poller] begin: trait-impl method resolution (`Rs/Interp.lean`, block [poller])
+rs_register_eqns SelfKind.hasRecv traitImplCands traitImplDecl
+-- [poller] end
+-- [errors] BEGIN
+rs_register_eqns enumFromKeys fnPathArg fnPathParams fnPathArgs
+-- [errors] END
+
 end ClockBound.Rs
